@@ -54,6 +54,12 @@ type msg struct {
 
 // New creates an aggregator
 func New(fun string, matcher matcher.Matcher, outFmt string, cache bool, interval, wait uint, dropRaw bool, out chan []byte) (*Aggregator, error) {
+	if matcher.Regex == "" {
+		return nil, fmt.Errorf("aggregation needs a regex")
+	}
+	if interval == 0 || time.Duration(interval)*time.Second <= 0 {
+		return nil, fmt.Errorf("aggregation interval must be a positive number of seconds, got %d", interval)
+	}
 	ticker := clock.AlignedTick(time.Duration(interval)*time.Second, time.Duration(wait)*time.Second, 2)
 	return NewMocked(fun, matcher, outFmt, cache, interval, wait, dropRaw, out, 2000, time.Now, ticker)
 }
